@@ -117,6 +117,14 @@ impl<'a> Ctx<'a> {
         self.last_v_frames = out.clone();
         Ok(out)
     }
+    /// A poll during which the device has no free transmit slot (nothing can leave the node).
+    pub fn poll_tx_refused(&mut self) -> Result<Vec<Packet>, Violation> {
+        self.node.dev.tx_budget = Some(0);
+        let r = self.poll();
+        self.node.dev.tx_budget = None;
+        self.stats.inc("fault.tx-ring-refused");
+        r
+    }
     pub fn poll(&mut self) -> Result<Vec<Packet>, Violation> {
         self.events += 1;
         self.hash.u64(self.now as u64);
@@ -349,10 +357,62 @@ impl Ranges {
 pub fn run_receiver(tape: &mut Tape, props: Props, thorough: bool, trace_on: bool) -> Outcome {
     let (mut c, su) = setup(tape, props, trace_on, Mode::Receiver);
     let desc = su.desc.clone();
-    let r = receiver_body(&mut c, &su, thorough);
+    let mut r = receiver_body(&mut c, &su, thorough);
+    // ---- the same socket object serves a second connection after the first one was reset (possibly with
+    // out-of-order data still parked behind a hole): nothing of the first may leak into the second
+    if r.is_ok() && c.tape.draw(3) == 2 {
+        r = reuse_socket(&mut c).and_then(|again| if again { receiver_body(&mut c, &su, thorough) } else { Ok(()) });
+    }
     let nontrivial = c.stats.get("c04.segments-sent") >= 3 && (c.stats.get("c04.seg-overlap-or-ooo") + c.stats.get("c04.seg-beyond-window")) > 0;
     let v = r.err();
     outcome(c, v, nontrivial, desc)
+}
+
+/// End the current connection with an in-sequence RST (or abort() by the application) and prepare the peer
+/// for a fresh one on the same victim socket. Returns false when the socket is not reusable right away.
+fn reuse_socket(c: &mut Ctx) -> Result<bool, Violation> {
+    let st = c.sock().state();
+    if st != tcp::State::Closed && st != tcp::State::Listen {
+        if c.tape.draw(2) == 0 {
+            let rst = Tcp { seq: c.v_ack, ack: c.v_snd_max, flags: F_RST | F_ACK, win: 0, ..Tcp::default() };
+            let f = c.seg(&rst);
+            c.log(|| "P tx RST (ending the first connection)".into());
+            c.inject(f)?;
+        } else {
+            let s = c.sock();
+            guard("tcp::abort", || s.abort())?;
+            c.log(|| "victim application aborts the first connection".into());
+        }
+        c.poll()?;
+    }
+    let st = c.sock().state();
+    if st != tcp::State::Closed && st != tcp::State::Listen && st != tcp::State::TimeWait {
+        return Ok(false);
+    }
+    if st != tcp::State::Closed {
+        let s = c.sock();
+        guard("tcp::abort", || s.abort())?;
+        c.poll()?;
+    }
+    // drain what the application had not read yet
+    let s = c.sock();
+    guard("tcp::recv", || {
+        while let Ok(n) = s.recv(|b| (b.len(), b.len())) {
+            if n == 0 {
+                break;
+            }
+        }
+    })?;
+    c.stats.inc("c04.socket-reused");
+    c.now += 1_000_000 + c.tape.draw(5_000_000) as i64;
+    c.p_port = c.p_port.wrapping_add(1).max(1024);
+    c.irs = c.tape.draw(u32::MAX as u64) as u32;
+    c.iss_v = None;
+    c.v_edge = None;
+    c.v_edge_last = None;
+    c.v_syn_win = None;
+    c.last_v_frames.clear();
+    Ok(true)
 }
 
 fn receiver_body(c: &mut Ctx, su: &Setup, thorough: bool) -> Result<(), Violation> {
@@ -515,7 +575,8 @@ fn receiver_body(c: &mut Ctx, su: &Setup, thorough: bool) -> Result<(), Violatio
                     }
                     Err(tcp::RecvError::InvalidState) => {}
                 }
-                let fr = c.poll()?;
+                // sometimes the window update cannot leave the node in this poll (device back-pressure)
+                let fr = if c.tape.draw(5) == 4 { c.poll_tx_refused()? } else { c.poll()? };
                 check_acks(c, &fr, data_seq0, &sent, fin_sent, total, c.v_edge, "after read")?;
             }
             8 => {
